@@ -61,7 +61,7 @@ def skip_fn(repo):
     """the runtime's `logos::skip` callback (src/lib.rs), copied; its (unnamed) parameter gets a name and the contract `lexer unchanged`"""
     src = open(os.path.join(repo, 'src', 'lib.rs')).read()
     m = re.search(SKIP_FN_RE, src)
-    if not m: raise lexgen.LexGenError('src/lib.rs: fn skip not found in the expected shape')
+    if not m: return ''      # definitions that use logos::skip then fail to resolve it: undecided for those units only
     text = m.group(0)
     text = re.sub(r'\(\s*\w+: &mut', '(lexer: &mut', text, count=1)
     text = text.replace('-> Skip {', '-> (r: Skip)\n    ensures *final(lexer) == *old(lexer),\n{')
@@ -83,7 +83,7 @@ def build_prelude(repo, work):
     text = text[:k]
     a = text.index('verus! {')
     text = text[:a] + PRELUDE_HEAD + 'verus! {\n' + PRELUDE_MODS + PRELUDE_AXIOMS + skip_fn(repo) + text[a + len('verus! {'):]
-    notes.append('prelude: `pub fn skip` copied from src/lib.rs; its parameter `_` is named `lexer` (Verus: patterns unsupported) and it carries `ensures *lexer unchanged`')
+    if skip_fn(repo): notes.append('prelude: `pub fn skip` copied from src/lib.rs; its parameter `_` is named `lexer` (Verus: patterns unsupported) and it carries `ensures *lexer unchanged`')
     text = text.replace('#![allow(', '#![allow(non_camel_case_types, non_upper_case_globals, unreachable_code, unused_assignments, ', 1)
     return text, notes, vs, meta
 
